@@ -27,7 +27,7 @@ prop( 'C05', [ 'S-STATUS', 'D-VALIDATE', 'W-ATTR', 'T-ALLOWED' ],
       not_decided='that values read back equal the converted values written (value/history dependent).',
       technique='constant typestate on a statement CFG with exception edges; dominance / must-pass-through with correlated branches; service feasibility by test folding; table interval containment' )
 
-prop( 'C12', [ 'T-CLIENT-TYPES', 'P-BUNDLE', 'T-PATHSYNTAX', 'S-COMPLETE' ],
+prop( 'C12', [ 'T-CLIENT-TYPES', 'P-BUNDLE', 'P-FRESH', 'T-PATHSYNTAX', 'S-COMPLETE' ],
       decides='P-BUNDLE: in connector.issue the keep-collecting condition conjoins the size test with equality of both route_path and '
               'send_path with those of the bundle, every yielded record carries ( index, sender_context ) of its wire request, sender_context is '
               'always derived from index, and index advances at most once per operation and after every flushed bundle; T-PATHSYNTAX: every '
@@ -74,14 +74,16 @@ prop( 'C03', [ 'W-ATTR', 'D-VALIDATE', 'R-SNAPSHOT', 'D-TYPE', 'T-TYPENAMES', 'T
       not_decided='read-your-writes over request histories, slice index arithmetic, symbolic-name resolution, per-element isolation (value/history dependent).',
       technique='who-may-write analysis via service feasibility on the CFG; AST shape checks; table checks' )
 
-prop( 'C06', [ 'X-SERVICES', 'P-REPLYBIT', 'P-ONE', 'D-ECHO', 'S-STATUS' ],
+prop( 'C06', [ 'X-SERVICES', 'P-REPLYBIT', 'P-ONE', 'P-PROCEED', 'D-ECHO', 'S-STATUS' ],
       decides='X-SERVICES: for Object, Message_Router, Connection_Manager and Logix the registered service parsers, the services '
               'request() dispatches and the services produce() encodes agree, and every *_RPY constant is *_REQ | 0x80; '
               'P-REPLYBIT: on every path of every handler to the reply producer the reply bit is set at most once, exactly once on '
               'every non-raising path and on every path that reports success; every normal exit produced a reply or delegated; '
               'P-ONE: per iteration of the TCP/UDP connection loop exactly one enip_process call (outside the frame-parsing loop), at most '
               'one send, the send control-dependent on a truthy result and carrying enip_encode( data.response.enip ) of the same iteration, '
-              'no thread/queue in the handler; D-ECHO: the response is built as a structural copy of the request encapsulation, no '
+              'no thread/queue in the handler; P-PROCEED: every UCMM command method (list_services, list_identity, list_interfaces, legacy) '
+              'returns True on every normal exit after producing data.enip.input (no implicit None, which the server loop reads as "send nothing, end the '
+              'session"), proceed starts True and is cleared only by Unregister, and nothing before that can raise; D-ECHO: the response is built as a structural copy of the request encapsulation, no '
               'server-side store to sender_context/command/options, session_handle only in the Register branch (re-drawn while zero/in use), '
               'Unregister sets proceed False and stores no payload; S-STATUS: any exception below UCMM ends as a non-zero status, never escapes.',
       not_decided='framing of reply values, randomness of session handles, socket-level pipelining behaviour (dynamic).',
@@ -120,7 +122,7 @@ prop( 'C02', [ 'G-CHUNK', 'G-FRAME', 'P-ACT', 'P-ONE', 'R-SENT', 'R-PROGRESS', '
       technique='grammar-graph extraction by abstract interpretation of the builder code + edge-kind analysis; path effect counting and '
                 'must-pass-through on the CFG; AST idiom matching on the framework loops' )
 
-prop( 'C07', [ 'A-OFFSETS', 'P-ORDER', 'P-EACH', 'P-CLOSURE', 'S-STATUS' ],
+prop( 'C07', [ 'A-OFFSETS', 'P-ORDER', 'P-EACH', 'P-CLOSURE', 'R-LOCK-5', 'P-FRESH', 'S-STATUS' ],
       decides='A-OFFSETS: the two offset-table emitters of Message_Router.produce and the two slice bounds of the parser closure '
               'normalise (linear-expression normaliser) to 2 + 2*N relative to the running offset, the count field is the number of '
               'offsets, members are sliced between consecutive offsets (last to the end) and appended in order; P-ORDER: in both produce '
@@ -132,14 +134,15 @@ prop( 'C07', [ 'A-OFFSETS', 'P-ORDER', 'P-EACH', 'P-CLOSURE', 'S-STATUS' ],
       not_decided='equality of each member\'s reply with its standalone reply, and of the resulting tag state (dynamic).',
       technique='linear normalisation of offset arithmetic; iteration/accumulation idiom pairing; per-iteration effect counting on the CFG' )
 
-prop( 'C08', [ 'G-PROGRESS', 'G-BOUND', 'G-REF', 'R-PROGRESS', 'R-LIMIT', 'E-CONTAIN', 'S-STATUS', 'W-ATTR', 'D-VALIDATE', 'G-PRIMS' ],
+prop( 'C08', [ 'G-PROGRESS', 'G-BOUND', 'G-REF', 'R-PROGRESS', 'R-LIMIT', 'E-CONTAIN', 'R-ISO', 'S-STATUS', 'W-ATTR', 'D-VALIDATE', 'T-ALLOWED', 'G-PRIMS' ],
       decides='termination-shape, containment and no-corruption clauses.  G-PROGRESS: in every extracted grammar level (all 25 registered '
               'service machines and 28 stand-alone machines) there is no cycle of non-consuming states, every data-counted repeat consumes '
               '>= 1 symbol per cycle, every sub-machine has a terminal state; G-BOUND/G-REF: every unbounded consumer lies inside a limit '
               'that resolves to a parsed integer field; R-PROGRESS/R-LIMIT: the framework\'s no-progress guards and limit chain have the '
               'required shape; E-CONTAIN: the connection handler\'s finally closes the socket and drops its stats entry, the per-connection '
               'runner swallows exceptions, no process-terminating call exists in the request-processing modules; S-STATUS/W-ATTR/D-VALIDATE: '
-              'exceptions become error replies and tags change only in validated write-service branches.',
+              'exceptions become error replies and tags change only in validated write-service branches; T-ALLOWED: no accepted write can make a tag '
+              'unreadable (which would end every other session reading it); R-ISO: per-connection (TCP) and per-datagram (UDP) parse state is local.',
       not_decided='wall-clock bounds, recursion depth of nested bundles, memory, that other sessions keep being served (scheduling).',
       technique='SCC/cycle analysis with a consumption model over extracted grammar graphs; reference resolution; CFG typestate; zero-count call rules' )
 
@@ -170,7 +173,7 @@ prop( 'C09', [ 'R-LOCK-1', 'R-LOCK-2', 'R-LOCK-3', 'R-LOCK-4', 'R-LOCK-5', 'R-IS
       technique='lock-set style who-holds-what rules over call sites (AST + dominance); field-to-lock tables',
       thorough_rules=[] )
 
-prop( 'C13', [ 'S-COMPLETE', 'P-MATCH', 'P-DISCARD', 'P-ACT', 'P-GATEWAY' ],
+prop( 'C13', [ 'S-COMPLETE', 'P-MATCH', 'P-FRESH', 'P-DISCARD', 'P-ACT', 'P-GATEWAY' ],
       decides='S-COMPLETE (sibling cross-check): every harvesting driver operate() can return (synchronous, pipeline) compares, after its '
               'harvest loop, a counter fed by the issue stream with a counter fed by the harvested results and raises on a mismatch - so '
               'the client can never silently return fewer results than operations; P-MATCH: in harvest every yield is dominated by an assert '
